@@ -66,6 +66,21 @@ def _judge(work, name, frames, results, coverage):
     return res, vcheck.parse_violations(out), cov
 
 
+def _collect_frames(gen):
+    """frames.json = formats.json + layouts.ndjson + texts.ndjson, all three written by TLC during the generator run"""
+    d = gen["dir"]
+    try:
+        fj = json.load(open(os.path.join(d, "formats.json")))
+        fj["layouts"] = [json.loads(l) for l in open(os.path.join(d, "layouts.ndjson")) if l.strip()]
+        fj["texts"] = [json.loads(l) for l in open(os.path.join(d, "texts.ndjson")) if l.strip()]
+    except (OSError, ValueError) as e:
+        raise Infra("TLC did not write the abstract frames: %s" % e)
+    fj["nframes"] = sum(len(l["codes"]) for l in fj["layouts"]) + len(fj["texts"])
+    frames = os.path.join(d, "frames.json")
+    json.dump(fj, open(frames, "w"))
+    return frames, fj
+
+
 def _groups(results, viols):
     """violating events -> groups (entry point, clauses, code location), shortest input as witness"""
     ev, wit = results["events"], results["witnesses"]
@@ -90,7 +105,7 @@ def _groups(results, viols):
 
 
 def _case(i, w):
-    return dict(id="r%03d" % i, ep=w["ep"], st=w["st"], fmt=w["fmt"], code=w["code"], fill=w["fill"], hex=w["hex"])
+    return dict(id="r%03d" % i, ep=w["ep"], st=w["st"], fmt=w["fmt"], code=w["code"], fill=w["fill"], lay=w.get("lay", 0), hex=w["hex"])
 
 
 def _sig(g):
@@ -138,13 +153,10 @@ def _run(prop, tier, seed, replay, work, t0):
         gen = vcheck.run_tlc(SPEC_DIR, "WireGrammarGen", open(os.path.join(SPEC_DIR, cfgfile)).read(), work, workers=8, timeout=2400, name="gen")
         if "No error has been found" not in gen["out"]:
             raise Infra("the wire grammar did not pass TLC (a specification problem, not a verdict):\n" + gen["out"][-3000:])
-        frames = os.path.join(gen["dir"], "frames.json")
-        if not os.path.exists(frames):
-            raise Infra("TLC did not write frames.json")
-        fj = json.load(open(frames))
+        frames, fj = _collect_frames(gen)
         frames_n = fj["nframes"]
         if frames_n != gen["distinct"]:
-            raise Infra("frames.json holds %d abstract frames but TLC enumerated %d" % (frames_n, gen["distinct"]))
+            raise Infra("TLC's output holds %d abstract frames but TLC enumerated %d" % (frames_n, gen["distinct"]))
         design.append(dict(module="WireGrammarGen", cfg=cfgfile, states=gen["distinct"], transitions=gen["generated"], bounds=fj.get("bounds")))
         log("grammar: %d abstract frames (%d layouts x codes, %d text frames)" % (frames_n, len(fj["layouts"]), len(fj["texts"])))
         rp, results, stats = _explore(binp, work, "explore", tier, seed, {"VERIF_WIRE_FRAMES": frames})
